@@ -5,17 +5,26 @@
    (mild outliers, rows / single coordinates of magnitude 2^39 ~ 5.5e11, sign flips, plausible rows),
    enabled while fewer than b (resp. f) rows are corrupted; all admissible b, (f, k) and the first
    inadmissible ones.  Exact arithmetic on two-level integers a + b*S; Krum scores enclosed by
-   integer square roots, "smaller" only claimed for disjoint enclosures (ties: every outcome allowed,
-   counted as ambiguous).  Invariants: sort/narrow/mean (implementation shape) = remove-b-largest-and-
-   smallest-then-average (property); the trimmed mean stays in the range of the untouched rows; a Krum
-   selection always exists and is unique when decidable; far rows are never selected while the
-   neighbourhood is large enough.
-2. S->C: EVERY reachable (matrix, parameter) is run on the real aggregators in float32 and float64 and
-   at three power-of-two scales: TrimmedMean must equal TLC's rational (4 eps) and lie in the honest
-   range; Krum's weights must be 1/k on exactly k rows forming a selection TLC allows and the output
-   their plain average; too few rows must be rejected, enough rows must not.
-3. C->S: random larger instances (m <= 8, n <= 5, entries up to 99 and +-2^39, random corruptions) are
-   recorded from the real aggregators and validated by TLC (TraceRobust) with the same operators.
+   integer square roots, "smaller" only claimed for disjoint enclosures whose gap exceeds the derived
+   float32 rounding of a score (ties: every outcome allowed, counted as ambiguous).  Invariants:
+   sort/narrow/mean (implementation shape) = remove-b-largest-and-smallest-then-average (property);
+   the trimmed mean stays in the range of the untouched rows; a Krum selection always exists and is
+   unique when decidable; far rows are never selected while the neighbourhood is large enough; a
+   common offset changes no distance and shifts the trimmed mean by itself (OffsetInvariant).
+   Further instance families of the same model: TIE-HEAVY honest matrices for TrimmedMean (a column on
+   which all rows agree, +-1 column, quantised column, duplicated rows; every b incl. 2b+1 = m), and
+   MANY-ROW matrices for Krum (m = 27, 40 in quick; small integer spread, block fault sequences with
+   seed-determined victims, f sampled over its range, every k; selection via MustIn/MayIn).
+2. S->C: EVERY reachable (matrix, parameter) is run on the real aggregators in float32 and float64, at
+   three power-of-two scales and on top of the common offsets 0, 2^17, 2^39 (large common mean + small
+   spread; the exact results are those of the spread matrix): TrimmedMean must equal TLC's rational
+   (4 eps) and lie in the honest range; Krum's weights must be 1/k on exactly k rows forming a
+   selection TLC allows and the output their plain average; too few rows must be rejected, enough
+   rows must not.
+3. C->S: random larger instances (m <= 8, n <= 5, entries up to 99 and +-2^39, random corruptions,
+   tie-heavy columns for TrimmedMean) and many-row Krum instances (26..40 rows, random large offset +
+   small spread, several k per matrix) are recorded from the real aggregators and validated by TLC
+   (TraceRobust) with the same operators.
 """
 
 from __future__ import annotations
@@ -43,8 +52,16 @@ def _digest(scn: dict) -> str:
 
 
 def _sid(scn: dict) -> str:
-    return (f"{scn['kind']}:m={scn['m']}:par={scn['par']}:corrupt={','.join(map(str, scn['corrupt'])) or '-'}"
-            f":J={_digest(scn)}")
+    cor = scn["corrupt"]
+    cs = (",".join(map(str, cor)) or "-") if len(cor) <= 8 else f"{len(cor)}rows"
+    return f"{scn['kind']}:m={scn['m']}:par={scn['par']}:corrupt={cs}:J={_digest(scn)}"
+
+
+def _tie_at_trim(scn: dict, c: int) -> bool:
+    """column c has equal entries across the trim boundary: sorted[b-1] == sorted[m-b] (0-based)"""
+    b, m = scn["par"], scn["m"]
+    col = sorted((rb[c], ra[c]) for ra, rb in zip(scn["ja"], scn["jb"]))
+    return b >= 1 and col[b - 1] == col[m - b]
 
 
 def _show(scn: dict) -> str:
@@ -55,33 +72,54 @@ def _show(scn: dict) -> str:
 
 
 # ----------------------------------------------------------------------------- S->C
+ZERO_OFF = [{"a": 0, "b": 0, "dtypes": list(DTYPES)}]
+
+
+def _offs(scn: dict) -> list:
+    return scn.get("offs") or ZERO_OFF
+
+
+def all_combos(scn: dict) -> list:
+    """every (dtype, power-of-two scale, common offset) on which a scenario can be presented exactly"""
+    return [(d, x, oi) for oi, o in enumerate(_offs(scn)) for d in DTYPES if d in o["dtypes"] for x in scn["exps"]]
+
+
+def _fmt_off(o: dict, sexp: int) -> str:
+    parts = ([str(o["a"])] if o["a"] else []) + ([f"{o['b']}*2^{sexp}"] if o["b"] else [])
+    return " + ".join(parts) or "0"
+
+
 def eval_scenario(scn: dict) -> dict:
-    """Run one TLC scenario on the real aggregators (all dtypes, all scales, all k)."""
+    """Run one TLC scenario on the real aggregators (dtypes, scales, common offsets, all k)."""
     torch.set_num_threads(1)
     finds, evals, amb, nontrivial = [], 0, 0, []
     sexp, m, par = scn["sexp"], scn["m"], scn["par"]
-    combos = scn.get("_combos") or [(d, x) for d in DTYPES for x in scn["exps"]]
-    for dtype, e in combos:
-        J = rr.build(scn["ja"], scn["jb"], sexp, e, dtype)
-        where = f"{dtype}, J = 2^{e} * {_show(scn)}, corrupted rows {scn['corrupt']}"
+    offs = _offs(scn)
+    for dtype, e, oi in (scn.get("_combos") or all_combos(scn)):
+        off = (offs[oi]["a"], offs[oi]["b"])
+        J = rr.build(scn["ja"], scn["jb"], sexp, e, dtype, off)
+        where = (f"{dtype}, J = 2^{e} * ({_fmt_off(offs[oi], sexp)} + {_show(scn)}), "
+                 f"corrupted rows {scn['corrupt']}")
         if scn["kind"] == "tm":
             exc, out = rr.tm_observe(par, J)
             evals += 1
             if scn["status"] == "reject":
                 if exc == "none":
-                    finds.append(("too_few_rows_not_rejected", None, dtype, e,
+                    finds.append(("too_few_rows_not_rejected", None, dtype, e, oi,
                                   f"TrimmedMean({par}) accepted a matrix with {m} rows ({where})"))
                 continue
             if exc != "none":
-                finds.append(("raised_although_enough_rows", None, dtype, e,
+                finds.append(("raised_although_enough_rows", None, dtype, e, oi,
                               f"TrimmedMean({par}) raised {exc} on a matrix with {m} >= {2 * par + 1} rows ({where})"))
                 continue
-            expected = [rr.exact_value(c, sexp, e) for c in scn["tm"]]
-            lo = [Fraction(v) * Fraction(2) ** e for v in scn["hmin"]]
-            hi = [Fraction(v) * Fraction(2) ** e for v in scn["hmax"]]
+            # TrimmedMean(J + o) = TrimmedMean(J) + o and the honest range moves with o (OffsetInvariant)
+            expected = [rr.exact_value(c, sexp, e, off) for c in scn["tm"]]
+            shift = Fraction(off[0]) + Fraction(off[1]) * Fraction(2) ** sexp
+            lo = [(Fraction(v) + shift) * Fraction(2) ** e for v in scn["hmin"]]
+            hi = [(Fraction(v) + shift) * Fraction(2) ** e for v in scn["hmax"]]
             cl, det = rr.tm_compare(out, expected, lo, hi, dtype)
             if cl != "none":
-                finds.append((cl, None, dtype, e, f"TrimmedMean({par}) returned {out.tolist()}: {det} ({where})"))
+                finds.append((cl, None, dtype, e, oi, f"TrimmedMean({par}) returned {out.tolist()}: {det} ({where})"))
         else:
             for case in scn["krum"]:
                 k = case["k"]
@@ -89,20 +127,22 @@ def eval_scenario(scn: dict) -> dict:
                 evals += 1
                 if case["status"] == "reject":
                     if obs["exc"] == "none":
-                        finds.append(("too_few_rows_not_rejected", k, dtype, e,
+                        finds.append(("too_few_rows_not_rejected", k, dtype, e, oi,
                                       f"Krum({par}, {k}) accepted a matrix with {m} rows ({where})"))
                     continue
-                cl = rr.krum_clause(obs, k, case["allowed"])
+                cl = rr.krum_clause(obs, k, case)
                 if cl != "none":
-                    finds.append((cl, k, dtype, e,
+                    want = (f"allowed selections {case['allowed']}" if case["allowed"] else
+                            f"every selection contains {case['must']} and lies within {case['may']}")
+                    finds.append((cl, k, dtype, e, oi,
                                   f"Krum(n_byzantine={par}, n_selected={k}) selected rows {obs['sel']} "
-                                  f"(exception {obs['exc']}; allowed selections {case['allowed']}) {obs['detail']} ({where})"))
+                                  f"(exception {obs['exc']}; {want}) {obs['detail']} ({where})"))
     if scn["kind"] == "tm" and scn["status"] == "ok" and scn["corrupt"]:
         nontrivial.append((_sid(scn), 0))
     if scn["kind"] == "krum":
         for case in scn["krum"]:
             if case["status"] == "ok":
-                if len(case["allowed"]) > 1:
+                if len(case["allowed"]) != 1:
                     amb += 1
                 elif scn["corrupt"] and case["k"] < m:
                     nontrivial.append((_sid(scn), case["k"]))
@@ -116,15 +156,52 @@ def _eval_safe(scn):
         return {"err": f"{type(ex).__name__}: {ex}"}
 
 
+def _quick_combos(i: int, s: dict) -> list:
+    """quick tier: a rotating subset of the presentations, so that every dtype, scale and offset is
+    used on every few scenarios; the many-row family always gets the two (offset, dtype) pairs in
+    which the common offset is large next to the spread (2^17 in float32, 2^39 in float64)."""
+    ex, offs = s["exps"], _offs(s)
+    valid = {d: [oi for oi, o in enumerate(offs) if d in o["dtypes"]] for d in DTYPES}
+
+    def pick(d, j):
+        return valid[d][j % len(valid[d])]
+    if s.get("fam") == "many":
+        return [("float32", ex[i % 3], pick("float32", 1)), ("float64", ex[(i + 1) % 3], pick("float64", 2)),
+                ("float32", ex[(i + 2) % 3], pick("float32", 0)), ("float64", ex[i % 3], pick("float64", i))]
+    if s["kind"] == "krum":
+        return [("float32", ex[i % 3], pick("float32", i)), ("float64", ex[(i + 1) % 3], pick("float64", i)),
+                ("float32", ex[(i + 2) % 3], pick("float32", i + 1))]
+    return [(d, x, pick(d, i + j)) for j, (d, x) in enumerate((d, x) for d in DTYPES for x in ex)]
+
+
+def _thorough_combos(i: int, s: dict) -> list:
+    """thorough tier: every (dtype, scale) without offset, and every non-zero offset at one rotating scale"""
+    ex, offs = s["exps"], _offs(s)
+    base = [(d, x, 0) for d in DTYPES for x in ex]
+    extra = [(d, ex[(i + oi) % len(ex)], oi) for oi, o in enumerate(offs) if oi > 0 for d in DTYPES if d in o["dtypes"]]
+    return base + extra
+
+
 def replay(ctx: Ctx, scns: list) -> None:
-    if ctx.tier == "quick" and len(scns) > 1:
-        # quick: TrimmedMean at all 6 (dtype, scale) combinations, Krum at 3 of them, rotating with the
-        # scenario so that every dtype and every scale is used on every third scenario at least
+    if len(scns) > 1:                   # a single scenario (--replay) is run on all presentations
         for i, s in enumerate(scns):
-            if s["kind"] == "krum":
-                ex = s["exps"]
-                s["_combos"] = [("float32", ex[i % 3]), ("float64", ex[(i + 1) % 3]), ("float32", ex[(i + 2) % 3])]
-    results = pmap(_eval_safe, scns, chunksize=64)
+            s["_combos"] = _quick_combos(i, s) if ctx.tier == "quick" else _thorough_combos(i, s)
+    # many-row scenarios are ~40 times more work than the others: spread them over the chunks
+    order = sorted(range(len(scns)), key=lambda i: (0 if scns[i].get("fam") == "many" else 1, i))
+    nchunk = 64
+    if len(scns) > 4 * nchunk:
+        heavy = [i for i in order if scns[i].get("fam") == "many"]
+        light = [i for i in order if scns[i].get("fam") != "many"]
+        order, hi = [], 0
+        for c in range(0, len(light), nchunk - 1):
+            if hi < len(heavy):
+                order.append(heavy[hi])
+                hi += 1
+            order.extend(light[c:c + nchunk - 1])
+        order.extend(heavy[hi:])
+    results = pmap(_eval_safe, [scns[i] for i in order], chunksize=nchunk)
+    back = dict(zip(order, results))
+    results = [back[i] for i in range(len(scns))]
     for scn, res in zip(scns, results):
         if "err" in res:
             raise MachineryError(f"scenario replay failed outside the code under test: {res['err']}")
@@ -133,11 +210,11 @@ def replay(ctx: Ctx, scns: list) -> None:
         ctx.count("krum_cases_ambiguous", res["amb"])
         for nt in res["nontrivial"]:
             ctx.nontrivial(nt)
-        for cl, k, dtype, e, what in res["finds"]:
+        for cl, k, dtype, e, oi, what in res["finds"]:
             ctx.count("violating_observations")
             if len(ctx.violations) >= 100:          # enough to report; the rest is only counted
                 continue
-            key = f"{cl}:{_sid(scn)}:k={k}:{dtype}:e={e}"
+            key = f"{cl}:{_sid(scn)}:k={k}:{dtype}:e={e}:o={oi}"
             ctx.violation(key, what, {"kind": "scenario", "scenario": {kk: v for kk, v in scn.items() if kk != "_combos"}})
 
 
@@ -145,25 +222,19 @@ def replay(ctx: Ctx, scns: list) -> None:
 S_EXP = 39
 
 
-def random_episode(i: int, rng: random.Random) -> dict:
-    m = rng.choice([1, 2, 3, 3, 4, 4, 5, 5, 6, 6, 7, 8])
-    n = rng.randint(1, 5)
-    kind = "tm" if rng.random() < 0.4 else "krum"
-    dtype = rng.choice(DTYPES)
-    e = rng.choice([-20, 0, 10, rng.randint(-30, 20)])
-    ja = [[rng.randint(-9, 9) for _ in range(n)] for _ in range(m)]
-    if all(v == 0 for r in ja for v in r):
-        ja[0][0] = 1
-    jb = [[0] * n for _ in range(m)]
-    if kind == "tm":
-        par = rng.randint(0, (m + 1) // 2)
-        ok = m >= 2 * par + 1
-        k = 0
-    else:
-        par = rng.randint(0, max(0, m - 2))
-        k = rng.randint(1, m + 1)
-        ok = m >= par + 3
-    bad = sorted(rng.sample(range(1, m + 1), rng.randint(0, min(par, m)))) if ok else []
+def _tie_column(rng: random.Random, m: int) -> list:
+    """a tie-heavy column: all rows agree / +-1 signs, nearly unanimous / quantised -1, 0, 1"""
+    t = rng.random()
+    if t < 0.4:
+        return [rng.choice([-7, -2, -1, 1, 3, 9])] * m
+    if t < 0.75:
+        s = rng.choice([-1, 1])
+        return [(-s if rng.random() < 0.2 else s) for _ in range(m)]
+    return [rng.randint(-1, 1) for _ in range(m)]
+
+
+def _corrupt_rows(rng: random.Random, ja, jb, bad, lo: int, hi: int) -> None:
+    m, n = len(ja), len(ja[0])
     for r in bad:
         style = rng.random()
         for c in range(n):
@@ -175,16 +246,81 @@ def random_episode(i: int, rng: random.Random) -> dict:
             if t < 0.3:
                 ja[r - 1][c], jb[r - 1][c] = rng.randint(-9, 9), 0
             elif t < 0.6:
-                ja[r - 1][c], jb[r - 1][c] = rng.choice([-1, 1]) * rng.randint(10, 99), 0
+                ja[r - 1][c], jb[r - 1][c] = rng.choice([-1, 1]) * rng.randint(lo, hi), 0
             else:
                 ja[r - 1][c], jb[r - 1][c] = 0, rng.choice([-1, 1])
-    return {"ep": i, "kind": kind, "par": par, "k": k, "ja": ja, "jb": jb, "bad": bad, "dtype": dtype, "e": e}
+
+
+def random_episode(i: int, rng: random.Random) -> dict:
+    m = rng.choice([1, 2, 3, 3, 4, 4, 5, 5, 6, 6, 7, 8])
+    n = rng.randint(1, 5)
+    kind = "tm" if rng.random() < 0.4 else "krum"
+    dtype = rng.choice(DTYPES)
+    e = rng.choice([-20, 0, 10, rng.randint(-30, 20)])
+    ja = [[rng.randint(-9, 9) for _ in range(n)] for _ in range(m)]
+    if kind == "tm" and rng.random() < 0.5:        # tie-heavy columns, duplicated rows
+        for c in range(n):
+            if rng.random() < 0.7:
+                col = _tie_column(rng, m)
+                for r in range(m):
+                    ja[r][c] = col[r]
+        for r in range(1, m):
+            if rng.random() < 0.25:
+                ja[r] = list(ja[rng.randrange(r)])
+    if all(v == 0 for r in ja for v in r):
+        ja[0][0] = 1
+    jb = [[0] * n for _ in range(m)]
+    if kind == "tm":
+        par = rng.randint(0, (m + 1) // 2)
+        ok = m >= 2 * par + 1
+        ks = []
+    else:
+        par = rng.randint(0, max(0, m - 2))
+        ks = [rng.randint(1, m + 1)]
+        ok = m >= par + 3
+    bad = sorted(rng.sample(range(1, m + 1), rng.randint(0, min(par, m)))) if ok else []
+    _corrupt_rows(rng, ja, jb, bad, 10, 99)
+    return {"ep": i, "kind": kind, "par": par, "ks": ks, "ja": ja, "jb": jb, "oa": 0, "ob": 0, "bad": bad,
+            "dtype": dtype, "e": e}
+
+
+def random_many_episode(i: int, rng: random.Random) -> dict:
+    """Krum on MANY rows (26..40) = large common offset + small integer spread, some rows corrupted
+    (10 x the spread, or +-2^39); several n_selected per matrix (the scores are computed once)."""
+    m = rng.randint(26, 40)
+    n = rng.randint(1, 4)
+    dtype = rng.choice(DTYPES)
+    e = rng.choice([-20, 0, 10, rng.randint(-30, 20)])
+    spread = rng.choice([2, 4, 9])
+    ja = [[rng.randint(-spread, spread) for _ in range(n)] for _ in range(m)]
+    jb = [[0] * n for _ in range(m)]
+    par = rng.choice([0, 1, rng.randint(0, m - 3), rng.randint(0, m // 3), m - 3])
+    bad = sorted(rng.sample(range(1, m + 1), rng.randint(0, par)))
+    _corrupt_rows(rng, ja, jb, bad, 10 * spread, 11 * spread + 9)
+    huge = any(v for r in jb for v in r)
+    # offset + entry must be exact: float32 has 24 bits (2^39 +- 2^17 k fits), float64 53
+    if dtype == "float32":
+        oa = rng.choice([-1, 1]) * (2 ** 17 * rng.randint(1, 3) if huge else rng.randint(2 ** 15, 2 ** 20))
+        ob = 0
+    else:
+        oa = rng.choice([-1, 1]) * rng.randint(0, 2 ** 20)
+        ob = rng.choice([-1, 1, 1])
+    if rng.random() < 0.15:
+        oa, ob = 0, 0
+    ks = sorted({1, m - par, rng.randint(1, m), rng.randint(1, m), rng.randint(1, m - par), rng.randint(m, m + 1)})
+    return {"ep": i, "kind": "krum", "par": par, "ks": ks, "ja": ja, "jb": jb, "oa": oa, "ob": ob, "bad": bad,
+            "dtype": dtype, "e": e}
 
 
 def observe_episode(ep: dict) -> dict:
     torch.set_num_threads(1)
-    J = rr.build(ep["ja"], ep["jb"], S_EXP, ep["e"], ep["dtype"])
-    out = dict(ep, exc="none", out=[], sel=[], wok=True, avgok=True, detail="")
+    ep = dict(ep)
+    ep.setdefault("oa", 0)
+    ep.setdefault("ob", 0)
+    if "ks" not in ep:                                           # replay files written before `ks`
+        ep["ks"] = [ep["k"]] if ep["kind"] == "krum" else []
+    J = rr.build(ep["ja"], ep["jb"], S_EXP, ep["e"], ep["dtype"], (ep["oa"], ep["ob"]))
+    out = dict(ep, exc="none", out=[], calls=[], detail="")
     if ep["kind"] == "tm":
         exc, vec = rr.tm_observe(ep["par"], J)
         out["exc"] = exc
@@ -192,8 +328,10 @@ def observe_episode(ep: dict) -> dict:
             out["out"] = [rr.rationalise(float(x), ep["e"], ep["dtype"]) for x in vec.to(torch.float64)]
             out["detail"] = f"returned {vec.tolist()}"
     else:
-        obs = rr.krum_observe(ep["par"], ep["k"], J)
-        out.update(exc=obs["exc"], sel=obs["sel"], wok=obs["wok"], avgok=obs["avgok"], detail=obs["detail"])
+        for k in ep["ks"]:
+            obs = rr.krum_observe(ep["par"], k, J)
+            out["calls"].append({"k": k, "exc": obs["exc"], "sel": obs["sel"], "wok": obs["wok"],
+                                 "avgok": obs["avgok"], "detail": obs["detail"]})
     return out
 
 
@@ -207,10 +345,16 @@ def _observe_safe(ep):
 def _tlc_trace(path_eps: list) -> object:
     with tempfile.TemporaryDirectory(prefix="verif_c16_") as d:
         path = os.path.join(d, "episodes.json")
-        keep = ("ep", "kind", "par", "k", "ja", "jb", "bad", "exc", "out", "sel", "wok", "avgok")
+        keep = ("ep", "kind", "par", "ja", "jb", "oa", "ob", "bad", "exc", "out")
+        ckeep = ("k", "exc", "sel", "wok", "avgok")
         with open(path, "w") as f:
-            json.dump([{k: e[k] for k in keep} for e in path_eps], f)
+            json.dump([dict({k: e[k] for k in keep}, calls=[{k: c[k] for k in ckeep} for c in e["calls"]])
+                       for e in path_eps], f)
         return run_tlc("TraceRobust", "Trace_Robust.cfg", workers=1, env={"TRACE_FILE": path}, timeout=900)
+
+
+def _ep_cost(e: dict) -> int:
+    return len(e["ja"]) ** 3 if e["kind"] == "krum" else 1
 
 
 def validate_episodes(ctx: Ctx, eps: list) -> dict:
@@ -218,13 +362,16 @@ def validate_episodes(ctx: Ctx, eps: list) -> dict:
     for lg in logged:
         if "err" in lg:
             raise MachineryError(f"episode run failed outside the code under test: {lg['err']}")
-    # several TLC instances side by side (the cursor of one trace run is sequential)
-    nparts = 1 if len(logged) < 64 else 4
-    parts = [logged[i::nparts] for i in range(nparts)]
+    # several TLC instances side by side (the cursor of one trace run is sequential); the many-row
+    # episodes are dealt out evenly
+    nparts = 1 if len(logged) < 64 else 6
+    parts = [[] for _ in range(nparts)]
+    for j, e in enumerate(sorted(logged, key=lambda e: (-_ep_cost(e), e["ep"]))):
+        parts[j % nparts].append(e)
     from concurrent.futures import ThreadPoolExecutor
     with ThreadPoolExecutor(nparts) as pool:
         results = list(pool.map(_tlc_trace, parts))
-    total = {"episodes": 0, "accepted": 0, "rejected": 0, "ambiguous": 0}
+    total = {"episodes": 0, "accepted": 0, "rejected": 0, "ambiguous": 0, "calls": 0}
     by_ep = {e["ep"]: e for e in logged}
     for part, res in zip(parts, results):
         ctx.add_tlc(res)
@@ -233,20 +380,30 @@ def validate_episodes(ctx: Ctx, eps: list) -> dict:
         summ = res.prints.get("SUMMARY", [None])[0]
         if not summ or summ["episodes"] != len(part) or summ["accepted"] + summ["rejected"] != len(part):
             raise MachineryError(f"trace validation incomplete: {summ}")
+        if summ["calls"] != sum(max(1, len(e["calls"])) for e in part):
+            raise MachineryError(f"trace validation did not look at every call: {summ}")
         for kk in total:
             total[kk] += summ[kk]
         for rj in res.prints.get("REJECT", []):
             e = by_ep[rj["ep"]]
-            name = f"TrimmedMean({e['par']})" if e["kind"] == "tm" else f"Krum(n_byzantine={e['par']}, n_selected={e['k']})"
+            k = rj["k"]
+            call = next((c for c in e["calls"] if c["k"] == k), {"exc": e["exc"], "sel": [], "detail": e["detail"]})
+            name = f"TrimmedMean({e['par']})" if e["kind"] == "tm" else f"Krum(n_byzantine={e['par']}, n_selected={k})"
             scn = {"ja": e["ja"], "jb": e["jb"], "sexp": S_EXP}
-            key = f"{rj['clause']}:trace:{e['kind']}:m={len(e['ja'])}:par={e['par']}:k={e['k']}:J={_digest(scn)}:{e['dtype']}:e={e['e']}"
+            off = _fmt_off({"a": e["oa"], "b": e["ob"]}, S_EXP)
+            mat = _show(scn) if len(e["ja"]) <= 8 else f"<{len(e['ja'])} x {len(e['ja'][0])} matrix, see the replay file>"
+            key = (f"{rj['clause']}:trace:{e['kind']}:m={len(e['ja'])}:par={e['par']}:k={k}:J={_digest(scn)}:o={e['oa']},{e['ob']}"
+                   f":{e['dtype']}:e={e['e']}")
             ctx.violation(key, f"[trace rejected by TraceRobust, clause {rj['clause']}] {name} on {e['dtype']} J = 2^{e['e']} * "
-                               f"{_show(scn)}, corrupted rows {e['bad']}: exception {e['exc']}, selected {e['sel']}, {e['detail']}",
-                          {"kind": "episode", "episode": {k: e[k] for k in ("ep", "kind", "par", "k", "ja", "jb", "bad", "dtype", "e")}})
+                               f"({off} + {mat}), corrupted rows {e['bad']}: exception {call['exc']}, selected {call['sel']}, "
+                               f"{call['detail']}",
+                          {"kind": "episode", "episode": dict({kk: e[kk] for kk in ("ep", "kind", "par", "ja", "jb", "oa", "ob",
+                                                                                   "bad", "dtype", "e")}, ks=[k] if k else [])})
     ctx.traces += total["accepted"] + total["rejected"]
     ctx.count("trace_krum_ambiguous", total["ambiguous"])
-    for e in logged[:3]:
-        ctx.sample({"trace_episode": {k: e[k] for k in ("kind", "par", "k", "ja", "jb", "bad", "dtype", "e", "exc", "out", "sel")}})
+    ctx.count("trace_krum_calls", total["calls"])
+    for e in logged[:2] + [x for x in logged if len(x["ja"]) > 8][:1]:
+        ctx.sample({"trace_episode": {k: e[k] for k in ("kind", "par", "ja", "jb", "oa", "ob", "bad", "dtype", "e", "exc", "out", "calls")}})
     return total
 
 
@@ -256,9 +413,16 @@ def _cfg_text(tier: str, seed: int) -> str:
     n = 2
     base = (seed % 1000) * n + (0 if tier == "quick" else 100_000)      # thorough: other honest matrices
     seeds = ", ".join(str(base + i + 1) for i in range(n))
+    nt = 2 if tier == "quick" else 3
+    tbase = 50_000 + (seed % 1000) * nt + (0 if tier == "quick" else 100_000)        # disjoint from HSeeds
+    tseeds = ", ".join(str(tbase + i + 1) for i in range(nt))
     out = []
     for line in text.splitlines():
-        out.append(f"CONSTANT HSeeds = {{{seeds}}}" if line.startswith("CONSTANT HSeeds") else line)
+        if line.startswith("CONSTANT HSeeds"):
+            line = f"CONSTANT HSeeds = {{{seeds}}}"
+        elif line.startswith("CONSTANT TSeeds"):
+            line = f"CONSTANT TSeeds = {{{tseeds}}}"
+        out.append(line)
     return "\n".join(out) + "\n"
 
 
@@ -266,14 +430,24 @@ def run(ctx: Ctx, replay_path: str | None) -> None:
     torch.manual_seed(ctx.seed)
     rng = random.Random(ctx.seed)
     ctx.rule = ("one case = (aggregator, parameter b or (f,k), matrix after a fault sequence); matrices = honest integer "
-                "matrix (m <= 6, 3 columns, generated from VERIF_SEED) with up to b / f rows replaced by the corruption patterns of "
-                "Robust.tla (up to 2^39 ~ 5.5e11 x the honest scale); each run in float32/float64 at scales 2^-20, 1, 2^10; "
-                "non-trivial = at least one corrupted row, and for Krum additionally k < m with an exactly decidable selection")
+                "matrix (generated from VERIF_SEED) with up to b / f rows replaced by the corruption patterns of Robust.tla (up to "
+                "2^39 ~ 5.5e11 x the honest scale).  Families: small (m <= 6, 3 columns, every fault sequence), ties (same, "
+                "TrimmedMean on tie-heavy honest matrices: constant non-zero column, +-1 column, quantised column, duplicated "
+                "rows; every b incl. 2b+1 = m), many (Krum, m in {27, 40} quick / {26, 33, 40, 48} thorough, one seed-determined "
+                "fault sequence per (m, seed, f), f sampled over its range, every k).  Each case is presented in float32/float64 "
+                "at scales 2^-20, 1, 2^10 and on top of the common offsets 0, 2^17, 2^39 (exact selection = that of the spread "
+                "matrix); non-trivial = at least one corrupted row, and for Krum additionally k < m with an exactly decidable "
+                "selection")
     ctx.assumptions += [
-        "every matrix entry is an integer or an integer times 2^39, times a power of two: exactly representable in float32",
+        "every matrix entry (offset + integer or integer * 2^39, times a power of two) is built in exact integer arithmetic "
+        "and verified to be exactly representable in the dtype used",
         "TrimmedMean allowance 4 eps |exact| (exact sum of the kept integers, <= 2 roundings for the division)",
-        "Krum: score order claimed only for disjoint integer-sqrt enclosures (gap >= 1e-3 resp. 1e-2/1e-1 for large entries, "
-        "S-parts separated by >= 2^39/1000 > 2 w); float32 scores carry a relative error <= 2.4e-7 * (m-f-2), far below the gap",
+        "Krum: score order claimed only for disjoint integer-sqrt enclosures whose gap also exceeds the float32 rounding of a "
+        "score, gamma (s_i + s_j) with gamma = (m-f-2 + n + 3) 2^-23 (Robust!Below/Margin: <= (n/2+3) u per distance, "
+        "(m-f-3) u for the sum, u = 2^-24, doubled); everything else is a tie: every outcome allowed, counted as ambiguous",
+        "a common offset o is exact next to the spread (|o| + |entry| < 2^24 resp. 2^53 after scaling), so row differences "
+        "are computed exactly by a difference-based distance; distances, scores and the selection are those of the spread "
+        "matrix (Robust!OffsetInvariant)",
         "Krum output allowance 4 (k+2) eps sum|J_ij| / k; weights must be 1/k within 2 eps and exactly 0 elsewhere",
         "rejection = any exception raised by the call (the statement says 'reject'); observed type is ValueError",
     ]
@@ -286,36 +460,57 @@ def run(ctx: Ctx, replay_path: str | None) -> None:
         return
 
     # (a) model check + export of every reachable (matrix, parameter)
-    res = run_tlc("Robust", cfg_text=_cfg_text(ctx.tier, ctx.seed), workers="auto", coverage=True, seed=ctx.seed,
-                  timeout=1500)
+    # (no -coverage: TLC's cost-model construction does not terminate in reasonable memory on this module;
+    #  that the fault actions were taken is established from the exported states instead)
+    res = run_tlc("Robust", cfg_text=_cfg_text(ctx.tier, ctx.seed), workers="auto", seed=ctx.seed, timeout=1500)
     ctx.add_tlc(res)
     if res.violated:
         raise MachineryError(f"Robust.tla: {res.violated} violated in the model\n{res.cex[:2000]}")
-    if not res.coverage.get("Next"):
-        raise MachineryError("vacuous model check: the fault action was never taken")
     scns = res.prints.get("SCN", [])
     if len(scns) != res.distinct:
         raise MachineryError(f"TLC found {res.distinct} states but exported {len(scns)} scenarios")
     scns.sort(key=lambda s: (s["kind"], s["m"], s["par"], s["hs"], s["corrupt"], s["ja"], s["jb"]))
     ctx.extra["scenarios_exported"] = len(scns)
-    kinds = {(s["kind"], s["status"]) for s in scns}
-    if kinds != {("tm", "ok"), ("tm", "reject"), ("krum", "ok"), ("krum", "reject")}:
-        raise MachineryError(f"vacuous export: scenario kinds {kinds}")
+    fams = {}
+    for s_ in scns:
+        kk = (s_["fam"], s_["kind"], s_["status"], "faulted" if s_["corrupt"] else "honest")
+        fams[kk] = fams.get(kk, 0) + 1
+    ctx.extra["scenario_families"] = {":".join(k): v for k, v in sorted(fams.items())}
+    need = [("small", "tm", "ok", "faulted"), ("small", "tm", "reject", "honest"), ("small", "krum", "ok", "faulted"),
+            ("small", "krum", "reject", "honest"), ("ties", "tm", "ok", "faulted"), ("ties", "tm", "ok", "honest"),
+            ("many", "krum", "ok", "faulted"), ("many", "krum", "ok", "honest")]
+    missing = [k for k in need if not fams.get(k)]
+    if missing or res.depth < 2:
+        raise MachineryError(f"vacuous model check / export: no scenario of {missing}; depth {res.depth}")
+    tie_cols = sum(1 for s_ in scns if s_["fam"] == "ties" and s_["status"] == "ok" and s_["par"] >= 1
+                   for c in range(len(s_["ja"][0]))
+                   if _tie_at_trim(s_, c))
+    ctx.extra["tm_columns_with_tie_across_the_trim_boundary"] = tie_cols
+    if not tie_cols:
+        raise MachineryError("vacuous tie-heavy family: no column whose b-th smallest equals its b-th largest entry")
 
     # (b) specification -> code: all of them
     replay(ctx, scns)
     ctx.exhaustive = True
-    ctx.extra["exhaustive_family"] = ("every state of Robust.tla for this seed's honest matrices: all fault sequences over the "
-                                      "pattern set, all admissible (b), (f,k) and the first inadmissible ones, m <= 6")
-    pick = [s for s in scns if s["corrupt"] and s["status"] == "ok"]
-    for s in (pick[0], pick[len(pick) // 2], pick[-1]):
-        ctx.sample({"scenario": s})
+    ctx.extra["exhaustive_family"] = ("every state of Robust.tla for this seed's honest matrices: small/ties family: all fault "
+                                      "sequences over the pattern set, all admissible (b), (f,k) and the first inadmissible "
+                                      "ones, m <= 6; many-row family: the sampled (m, f, fault sequence) states, every k")
+    pick = [s for s in scns if s["corrupt"] and s["status"] == "ok" and s["fam"] != "many"]
+    many = [s for s in scns if s["corrupt"] and s["status"] == "ok" and s["fam"] == "many"]
+    for s in (pick[0], pick[len(pick) // 2], pick[-1], many[0]):
+        ctx.sample({"scenario": {k: v for k, v in s.items() if k != "_combos"}})
     ncase = sum(1 for s in scns if s["kind"] == "krum" for c in s["krum"] if c["status"] == "ok")
+    ncase_many = sum(1 for s in scns if s["fam"] == "many" for c in s["krum"] if c["status"] == "ok")
+    ndec_many = sum(1 for s in scns if s["fam"] == "many" for c in s["krum"] if c["status"] == "ok" and len(c["allowed"]) == 1)
     ctx.extra["krum_cases"] = ncase
+    ctx.extra["krum_cases_many_rows"] = {"cases": ncase_many, "decided": ndec_many}
     if ncase and ctx.counters.get("krum_cases_ambiguous", 0) > 0.8 * ncase:
         raise MachineryError("more than 80% of the Krum cases are ties/ambiguous: the family is too degenerate")
+    if ndec_many < 0.5 * ncase_many:
+        raise MachineryError("fewer than half of the many-row Krum cases are exactly decidable: the family is too degenerate")
 
     # (c) code -> specification
-    n_ep = 400 if ctx.tier == "quick" else 3000
+    n_ep, n_many = (400, 36) if ctx.tier == "quick" else (3000, 300)
     eps = [random_episode(i + 1, rng) for i in range(n_ep)]
+    eps += [random_many_episode(n_ep + i + 1, rng) for i in range(n_many)]
     ctx.extra["trace_summary"] = validate_episodes(ctx, eps)
